@@ -705,6 +705,30 @@ Definition sound14 (F : cfg) : bool :=
   workers_ok F && cancel_codes_ok F
   && match c_abor F with AbUnknown => false | _ => true end.
 
+(* ---- the repaired shapes (fix commits "transfer workers enter the data stream context before the file",
+   "ABOR is answered when the only workers are finished ones", "ABOR before the data connection is made answers
+   426/226"): closed obligations that are false on the former, defective shapes *)
+Definition sf_shape (l : list citem) : bool :=
+  match l with [CStream] | [CStream; CFile] => true | _ => false end.
+Definition stream_first_ok (F : cfg) : bool :=
+  forallb (fun k => sf_shape (wf_ctx (c_w F k))) [KRetr; KStor; KList; KMlsd].
+Definition abor_notdone (F : cfg) : bool := match c_abor F with AbNotDone => true | _ => false end.
+Definition cancelled_task_answered (F : cfg) : bool :=
+  match on_task_exn F ECancel with Some l => codes_eqb l | None => false end.
+Definition repaired12 (F : cfg) : bool := sound12 F && stream_first_ok F.
+Definition repaired14 (F : cfg) : bool :=
+  sound14 F && stream_first_ok F && abor_notdone F && cancelled_task_answered F.
+
+(* a transfer whose own failure (or an earlier abort) is still to be reported by the dispatcher *)
+Definition pending_failure (w : wrk) : bool :=
+  match w_stage w with Failed _ | Cancelled => true | _ => false end.
+(* R1: another task (the abor handler) runs only while the worker is suspended, has not started or has finished *)
+Definition at_rest (F : cfg) (w : wrk) : bool :=
+  negb (pending_failure w) && (terminal (w_stage w) || parks (c_w F (w_kind w)) (w_stage w)).
+(* no listener start-up in progress (F5, not repaired) *)
+Definition startup_free (s : sess) : bool :=
+  match lst s with LTaking | LBound => false | _ => true end.
+
 (* ABOR is safe for a worker at this point (exactly the complement of the refuted stages) *)
 Definition cancelled_task_ok (F : cfg) : bool :=
   match on_task_exn F ECancel with Some l => codes_eqb l | None => false end.
@@ -803,7 +827,7 @@ Definition run_abor (F : cfg) (a : sx) : sx :=
   let '(st', ra) := abor_run F st in
   L [sx_of_bool (alive (ss st')); sx_of_zs (ledger F st'); sx_of_zs ra;
      L (map (sx_of_wrk F) (ws (unwind F (fst (step F st Abor)))));
-     sx_of_bool (forallb (abor_safe F) (ws st)); sx_of_zs (ledger F st); L (map (sx_of_wrk F) (ws st));
+     sx_of_bool (forallb (fun w => negb (w_leak w) && at_rest F w) (ws st)); sx_of_zs (ledger F st); L (map (sx_of_wrk F) (ws st));
      sx_of_zs rs].
 
 Definition run_transfer (F : cfg) (fn : Z) (a : sx) : sx :=
@@ -813,7 +837,8 @@ Definition run_transfer (F : cfg) (fn : Z) (a : sx) : sx :=
   | 1%Z => L [sx_of_bool (sound12 F); sx_of_bool (sound14 F); sx_of_bool (workers_ok F);
               sx_of_bool (fin_ok (c_fin F)); sx_of_bool (cancel_codes_ok F);
               I (match c_abor F with AbTruthy => 0 | AbNotDone => 1 | AbUnknown => 2 end)%Z;
-              sx_of_bool (cancelled_task_ok F)]
+              sx_of_bool (cancelled_task_ok F); sx_of_bool (repaired12 F); sx_of_bool (repaired14 F);
+              sx_of_bool (stream_first_ok F); sx_of_bool (abor_notdone F)]
   | 2%Z => L (map (fun k => sx_of_wfacts (c_w F k)) [KRetr; KStor; KList; KMlsd])
   | _ => sx_err 99
   end.
